@@ -43,6 +43,8 @@ type ScriptSub struct {
 	EndAfterScript bool
 	// FailSubscribes: that many Subscribe calls are rejected (ErrScriptSubscribe) before the first one is accepted
 	FailSubscribes int
+	// BlockSubscribe: Subscribe does not return before the subscriber is closed (a transport still connecting), then fails
+	BlockSubscribe bool
 	// OnSubscribe, when set, runs inside every Subscribe call (argument: number of earlier calls)
 	OnSubscribe func(call int)
 	// CtxFor, when set, derives the context of a delivered copy from the subscription context
@@ -74,6 +76,10 @@ func (s *ScriptSub) Subscribe(ctx context.Context, topic string) (<-chan *messag
 		s.OnSubscribe(s.SubscribeCalls - 1)
 	}
 	if s.closed {
+		return nil, errors.New("script subscriber closed")
+	}
+	if s.BlockSubscribe {
+		<-s.closing
 		return nil, errors.New("script subscriber closed")
 	}
 	if s.FailSubscribes > 0 {
